@@ -5,6 +5,8 @@ import random
 
 from pyvc.report import Check, run_check, seed, WORK
 from checks import sys_common as SC
+from checks.wp_common import run_wp
+from pyvc.smt import budget_ms
 from spec import model, runner, designs as DS
 
 
@@ -103,13 +105,18 @@ def raw_helpers(ck, tier):
 
 
 def main(tier):
-    ck = Check("C20", tier, "exploration",
+    ck = Check("C20", tier, "other",
+               "Deductive part (pyvc.wp on the real source, all inputs): _experiments_to_tuples and _experiments_to_dicts return, for every list of experiments and "
+               "every list of keys present in them, one entry per experiment in order, as many trials as the shortest selected column, and trial t holds under "
+               "position j / key keys[j] exactly experiments[e][keys[j]][t]; the dicts have no other key (experiment dicts and the produced tuples/dicts are opaque "
+               "objects with accessor functions; zip(*rows) and dict(zip(keys, tuple)) enter through their builtin contracts). Bounded part: "
                "Conversions over the designs of D (incl. weighted factors outside the crossing, which the library desugars into hidden factors) and over arbitrary "
                "well-formed experiment lists: experiments_to_tuples / experiments_to_dicts / save_experiments_csv must reproduce, per experiment and trial in "
                "order, exactly the values of each user-declared factor in design order; neither synthesize_trials nor the conversions may expose a factor the "
                "user did not declare (HiddenName). CSV files are written to a scratch directory and read back with the csv module.")
     ck.under_contract(*["sweetpea._internal.main:" + n for n in ("_experiments_to_tuples", "_experiments_to_dicts", "_experiments_to_csv", "experiments_to_tuples",
                                                                   "experiments_to_dicts", "save_experiments_csv", "__filter_hidden", "__filter_hidden_keys")])
+    run_wp(ck, ["experiments_to_tuples", "experiments_to_dicts"], budget_ms(tier), prefix="C20.wp.")
     raw_helpers(ck, tier)
     ds = SC.design_space(tier, seed(), random_n=25 if tier == "quick" else 300)
     WORK.mkdir(exist_ok=True)
